@@ -11,6 +11,10 @@ R2 reconnect loops agree: in each of the four *_connect functions a failed attem
 R3 stop order: both stop() methods disconnect before stopping the pump / the final save;
    disconnect clears `protocol`; send tests it first.
 R4 the OSError handler of send triggers exactly one reconnect (C16-R3).
+R5 structure of the TCP watchdog: the drop condition compares last-answer time + 2 x
+   reconnect_timeout with now, the probe condition last-probe time + reconnect_timeout; an answer
+   restarts the disconnect timer, a new connection restarts both; the watchdog's OSError ends
+   the connection in both flavours. (The timing guarantee itself is not decided.)
 """
 from __future__ import annotations
 
@@ -98,7 +102,7 @@ def connect_worker(analysis: Analysis, spec) -> dict:
         kind, s, v = out
         seq = []
         for e in s.events:
-            if e.func != qual:
+            if e.kind == "catch" and e.func != qual:
                 continue
             if e.kind == "call" and e.name in ("serial.serial_for_url", "socket.create_connection", "serial_asyncio.create_serial_connection", "asyncio.wait_for"):
                 seq.append("attempt")
@@ -115,6 +119,73 @@ def connect_worker(analysis: Analysis, spec) -> dict:
                 seq.append("connected")
         rows.append({"kind": kind, "exc": f"{v.cls.__name__} at {v.site}" if kind == "raise" else None, "cancelled": kind == "raise" and v.cls.__name__ == "CancelledError", "seq": seq, "witness": describe_path(out, 22)})
     return {"qual": qual, "async": info.is_async, "rows": rows}
+
+
+def watchdog_structure(analysis: Analysis, res: RuleResult) -> None:
+    """R5: structure of the TCP watchdog (which timer, which factor, which side of the comparison).
+
+    The two-sided timing guarantee itself is a statement about wall-clock values and is not
+    decided; these are the structural facts it rests on.
+    """
+    info = analysis.p.func("gateway_tcp:BaseTCPGateway.check_connection")
+    w = common.where(analysis, info, info.node)
+
+    def sides(test):
+        if not (isinstance(test, ast.Compare) and len(test.ops) == 1):
+            return None
+        l, r = unparse(test.left).replace(" ", ""), unparse(test.comparators[0]).replace(" ", "")
+        op = type(test.ops[0]).__name__
+        if "time.time()" in r and "time.time()" not in l:
+            return l, op
+        if "time.time()" in l and "time.time()" not in r:
+            flip = {"Lt": "Gt", "Gt": "Lt", "LtE": "GtE", "GtE": "LtE"}
+            return r, flip.get(op, op)
+        return None
+
+    drop = probe_skip = None
+    for n in info.node.body:
+        if isinstance(n, ast.If):
+            sd = sides(n.test)
+            if sd is None:
+                continue
+            if any(isinstance(x, ast.Raise) for x in ast.walk(n)):
+                drop = (sd, n)
+            elif any(isinstance(x, ast.Return) for x in n.body):
+                probe_skip = (sd, n)
+    ok = drop is not None and "tcp_disconnect_timer" in drop[0][0] and "2*" in drop[0][0] and "reconnect_timeout" in drop[0][0] and drop[0][1] in ("Lt", "LtE")
+    res.add("C20-R5", "gateway_tcp:BaseTCPGateway.check_connection / the link is dropped when the last answer is older than 2 x reconnect_timeout", ok, w, f"condition {drop[0] if drop else None}")
+    if drop is not None:
+        exc = [x for x in ast.walk(drop[1]) if isinstance(x, ast.Raise)]
+        res.add("C20-R5", "gateway_tcp:BaseTCPGateway.check_connection / a silent link raises OSError into the reader loop", any("OSError" in unparse(x) for x in exc), w, "")
+    ok = probe_skip is not None and "tcp_check_timer" in probe_skip[0][0] and "reconnect_timeout" in probe_skip[0][0] and "2*" not in probe_skip[0][0] and probe_skip[0][1] in ("GtE", "Gt")
+    res.add("C20-R5", "gateway_tcp:BaseTCPGateway.check_connection / a version probe is sent every reconnect_timeout", ok, w, f"probe skipped while {probe_skip[0] if probe_skip else None}")
+    txt = unparse(info.node)
+    res.add("C20-R5", "gateway_tcp:BaseTCPGateway.check_connection / the probe is I_VERSION to the gateway and restarts the probe timer", "I_VERSION" in txt and "add_job" in txt and "self.tcp_check_timer = time.time()" in txt, w, "")
+    h = analysis.p.func("gateway_tcp:BaseTCPGateway._handle_i_version")
+    res.add("C20-R5", "gateway_tcp:BaseTCPGateway._handle_i_version / an answer restarts the disconnect timer", "self.tcp_disconnect_timer = time.time()" in unparse(h.node), common.where(analysis, h, h.node), "")
+    init = analysis.p.func("gateway_tcp:BaseTCPGateway.__init__")
+    res.add("C20-R5", "gateway_tcp:BaseTCPGateway.__init__ / answers to the version probe are routed to the watchdog", "I_VERSION.set_handler" in unparse(init.node) and "_handle_i_version" in unparse(init.node), common.where(analysis, init, init.node), "")
+    for q in ("gateway_tcp:sync_connect", "gateway_tcp:async_connect"):
+        f = analysis.p.func(q)
+        t = unparse(f.node)
+        res.add("C20-R5", f"{q} / both watchdog timers restart on a new connection", "tcp_check_timer = time.time()" in t and "tcp_disconnect_timer = time.time()" in t, common.where(analysis, f, f.node), "")
+    run = analysis.p.func("gateway_tcp:TCPTransport.run")
+    ok = False
+    cls = analysis.p.classes["gateway_tcp:TCPTransport"]
+    for m in cls.methods.values():
+        for n in ast.walk(m.node):
+            if isinstance(n, ast.Try) and any("_check_connection()" in unparse(b) for b in n.body):
+                for h in n.handlers:
+                    if h.type is not None and "OSError" in unparse(h.type) and h.name:
+                        # the error must end the loop: break, or be handed on (returned / stored) - not swallowed
+                        uses = any(isinstance(x, ast.Name) and x.id == h.name for x in ast.walk(ast.Module(body=h.body, type_ignores=[])))
+                        ends = any(isinstance(x, (ast.Break, ast.Return)) for x in ast.walk(ast.Module(body=h.body, type_ignores=[])))
+                        if uses and ends:
+                            ok = True
+    res.add("C20-R5", "gateway_tcp:TCPTransport.run / the watchdog runs every loop iteration and its OSError ends the connection", ok, common.where(analysis, run, run.node), "try: self._check_connection() except OSError: break -> connection_lost(error)")
+    a = analysis.p.func("gateway_tcp:AsyncTCPGateway.check_connection")
+    t = unparse(a.node)
+    res.add("C20-R5", "gateway_tcp:AsyncTCPGateway.check_connection / re-arms itself and, when silent, closes and reconnects", "call_later" in t and "self.check_connection" in t and "conn_lost_callback()" in t and ".close()" in t and "except OSError" in t, common.where(analysis, a, a.node), "")
 
 
 def run(analysis: Analysis, tier: str) -> RuleResult:
@@ -165,6 +236,10 @@ def run(analysis: Analysis, tier: str) -> RuleResult:
             for i, x in enumerate(seq):
                 if x.startswith("catch:") and "Cancelled" not in x:
                     rest = seq[i + 1 :]
+                    if r["cancelled"] and (not rest or rest[0].startswith("catch:CancelledError")):
+                        continue  # cancelled (stop) before the wait began: nothing to judge on this path
+                    if rest and rest[0].startswith("catch:CancelledError"):
+                        continue
                     ok = bool(rest) and rest[0] == "sleep"
                     cont = any(y in ("attempt", "loop", "test-protocol") for y in rest[1:]) or (r["kind"] == "raise" and r["cancelled"]) or (not summ["async"] and r["kind"] == "val" and "connected" not in rest)
                     if ok and cont:
@@ -201,6 +276,7 @@ def run(analysis: Analysis, tier: str) -> RuleResult:
     first = [s for s in info.node.body if isinstance(s, ast.If)]
     ok = bool(first) and "protocol" in unparse(first[0].test) and all(isinstance(x, ast.Return) for x in first[0].body)
     res.add("C20-R3", "transport:Transport.send / tests the connection first (no write after stop)", ok, common.where(analysis, info, info.node), unparse(first[0].test)[:80] if first else "")
+    watchdog_structure(analysis, res)
     res.units = {"protocol_classes": classes, "connect_loops": [c[0] for c in CONNECTS], "source_digest": analysis.p.digest()}
     res.not_decided = ["the two-sided timing guarantee of the TCP watchdog", "exactly-once callbacks under arbitrary event sequences", "behaviour when a user callback itself raises on the reader thread"]
     res.assumptions = ["failure classes of the connect primitives as in sa/extmodel.py (SerialException, socket.timeout, OSError, asyncio.TimeoutError)"]
